@@ -8,6 +8,7 @@ import (
 	"runtime"
 	"strings"
 	"sync"
+	"sync/atomic"
 	"testing"
 	"time"
 
@@ -62,6 +63,9 @@ func (l *liveRun) converged() (bool, string) {
 	}
 	if s != l.w.node.Height() {
 		return false, fmt.Sprintf("synced to %d, node at %d", s, l.w.node.Height())
+	}
+	if bb := env.H.VerifBestBlock(); bb.Height == s && bb.Hash != *l.w.node.Tip().Hash() {
+		return false, fmt.Sprintf("at height %d the wallet follows block %v, the node's best block is %v", s, bb.Hash, l.w.node.Tip().Hash())
 	}
 	wl, err := env.W.Wallets()
 	if err != nil {
@@ -166,6 +170,25 @@ func waitWorkerInit(t *rapid.T, env *sim.Env) {
 	}
 }
 
+// backgroundCallerKind names the wallet goroutine the caller runs in ("handle", "worker" or "").
+func backgroundCallerKind() string {
+	pc := make([]uintptr, 40)
+	n := runtime.Callers(3, pc)
+	fr := runtime.CallersFrames(pc[:n])
+	for {
+		f, more := fr.Next()
+		if strings.HasSuffix(f.Function, "masswallet.worker") {
+			return "worker"
+		}
+		if strings.HasSuffix(f.Function, "masswallet.handle") {
+			return "handle"
+		}
+		if !more {
+			return ""
+		}
+	}
+}
+
 // backgroundCaller reports whether the current goroutine is the wallet's follower or worker.
 func backgroundCaller() bool {
 	pc := make([]uintptr, 40)
@@ -263,22 +286,37 @@ func propC20(t *rapid.T) {
 	waitWorkerInit(t, w.env)
 
 	// stop placement
-	mode := rapid.SampledFrom([]string{"delay", "delay", "gate", "gate", "gate", "none"}).Draw(t, "stopMode")
+	mode := rapid.SampledFrom([]string{"delay", "delay", "gate", "gate", "gate", "none", "none"}).Draw(t, "stopMode")
 	gate := int64(0)
 	if mode == "gate" {
 		gate = ctl.Calls() + int64(rapid.IntRange(1, 120).Draw(t, "gateCall"))
-		ctl.OnCall = func(n int64, kind string) {
-			if n >= gate && backgroundCaller() {
-				l.startStop()
+	}
+	// pile-ups: announcements may be held back over several steps of the burst and then handed to
+	// the follower in one go while it is parked at its next database call, so that it finds several
+	// tips queued at once (as after a long task section or a busy node)
+	hold := rapid.IntRange(0, 2).Draw(t, "holdAnnouncements") == 0
+	var pile atomic.Value // chan struct{}: the follower waits on it at its next database call
+	ctl.OnCall = func(n int64, kind string) {
+		who := backgroundCallerKind()
+		if mode == "gate" && n >= gate && who != "" {
+			l.startStop()
+		}
+		if who == "handle" {
+			if ch, _ := pile.Load().(chan struct{}); ch != nil {
+				select {
+				case <-ch:
+				case <-l.stopIssued:
+				case <-time.After(10 * time.Second):
+				}
 			}
 		}
 	}
 
 	// the burst
-	burst := rapid.SliceOfN(rapid.SampledFrom([]string{"blocks", "blocks", "import", "remove", "reorg", "importStorm"}), 1, 4).Draw(t, "burst")
+	burst := rapid.SliceOfN(rapid.SampledFrom([]string{"blocks", "blocks", "import", "remove", "reorg", "importStorm", "pileUp"}), 1, 4).Draw(t, "burst")
 	inflight := false
-	for _, op := range burst {
-		stopping := false
+	for bi, op := range burst {
+		stopping, parkFlush := false, false
 		select {
 		case <-l.stopIssued:
 			stopping = true
@@ -294,9 +332,29 @@ func propC20(t *rapid.T) {
 			for i := 0; i < k; i++ {
 				w.actMine(t, true)
 			}
+		case "pileUp":
+			// several tips, possibly ending with a reorganisation to a branch that is not longer, reach
+			// the follower while it is busy with the first of them
+			for i := rapid.IntRange(1, 3).Draw(t, "pileBlocks"); i > 0; i-- {
+				w.actMine(t, true)
+			}
+			if rapid.IntRange(0, 2).Draw(t, "pileReorg") > 0 {
+				if rapid.Bool().Draw(t, "pileEqual") {
+					w.forcedEqualLength = true
+					w.flag("equal-length-reorg-in-burst")
+				}
+				w.actReorg(t)
+				w.forcedEqualLength = false
+			}
+			parkFlush = true
 		case "reorg":
 			if w.node.Height() >= 1 {
+				if rapid.IntRange(0, 2).Draw(t, "equalLength") == 0 {
+					w.forcedEqualLength = true // the node's best chain is chosen by capacity, not by height
+					w.flag("equal-length-reorg-in-burst")
+				}
 				w.actReorg(t)
+				w.forcedEqualLength = false
 			}
 		case "import":
 			size := []int{16, 24, 32}[rapid.IntRange(0, 2).Draw(t, "entSize2")]
@@ -374,7 +432,16 @@ func propC20(t *rapid.T) {
 			}
 		}
 		l.apiMu.RUnlock()
+		if hold && !parkFlush && bi < len(burst)-1 {
+			continue // keep them for later
+		}
 		// hand queued announcements to the running follower (what the node's listener thread does)
+		var release chan struct{}
+		if (hold || parkFlush) && len(w.env.Queue) >= 2 {
+			release = make(chan struct{})
+			pile.Store(release)
+			w.flag("pile-up-of-announcements")
+		}
 		for _, b := range w.env.Queue {
 			sent := make(chan struct{})
 			go func() { H.OnBlockConnected(b); close(sent) }()
@@ -385,6 +452,11 @@ func propC20(t *rapid.T) {
 				t.Fatalf("HARNESS-ERROR: OnBlockConnected blocked for 5 s (queue full?)")
 			}
 			l.logf("announced h=%d", b.Header.Height)
+		}
+		if release != nil {
+			time.Sleep(200 * time.Microsecond)
+			pile.Store((chan struct{})(nil))
+			close(release)
 		}
 		w.env.Queue = nil
 	}
@@ -421,24 +493,15 @@ func propC20(t *rapid.T) {
 		waitWorkerInit(t, w.env)
 		l.resetStop()
 		busy := inflight && (st != "idle/idle")
-		c20.Case(hkey(strings.Join(w.journal, "\n"), strings.Join(l.log, ";"), mode, delay, gate), busy, "stop:"+mode, "at:"+st, fmt.Sprintf("burst:%d", len(burst)))
+		c20.Case(hkey(strings.Join(w.journal, "\n"), strings.Join(l.log, ";"), mode, delay, gate), busy, append([]string{"stop:" + mode, "at:" + st, fmt.Sprintf("burst:%d", len(burst))}, w.sortedFlags()...)...)
 		if busy {
 			c20.Sample("stop:"+mode+"/"+st, 1, map[string]interface{}{"burst": l.log, "mode": mode, "delay_us": delay.Microseconds(), "state_at_stop": st, "history": w.journal})
 		}
 	} else {
-		c20.Case(hkey(strings.Join(w.journal, "\n"), strings.Join(l.log, ";"), "none"), inflight, "stop:none", fmt.Sprintf("burst:%d", len(burst)))
+		c20.Case(hkey(strings.Join(w.journal, "\n"), strings.Join(l.log, ";"), "none"), inflight, append([]string{"stop:none", fmt.Sprintf("burst:%d", len(burst))}, w.sortedFlags()...)...)
 	}
-	// liveness: everything accepted finishes, the tip is reached
-	if w.node.Height() > 0 {
-		sent := make(chan struct{})
-		tip := w.node.Tip().MsgBlock()
-		go func() { H.OnBlockConnected(tip); close(sent) }()
-		select {
-		case <-sent:
-		case <-time.After(5 * time.Second):
-			t.Fatalf("HARNESS-ERROR: OnBlockConnected blocked for 5 s")
-		}
-	}
+	// liveness: everything accepted finishes and the tip is reached without any further announcement
+	// (every tip was announced to the running follower, or Start() has caught up with the node since)
 	deadline := time.Now().Add(90 * time.Second)
 	for {
 		ok, why := l.converged()
